@@ -68,6 +68,17 @@ func (h *TwoPartyHandler) Stop() {
 	h.abort(errors.New("aborted by user"))
 }
 
+// abortOnPanic must be deferred while holding h.mtx. It turns a panic into an abort of the
+// protocol, unless the protocol has already finished.
+func (h *TwoPartyHandler) abortOnPanic() {
+	if r := recover(); r != nil {
+		if h.err != nil || h.result != nil {
+			return
+		}
+		h.abort(fmt.Errorf("panic while processing message: %v", r))
+	}
+}
+
 func (h *TwoPartyHandler) String() string {
 	h.mtx.Lock()
 	defer h.mtx.Unlock()
@@ -218,6 +229,8 @@ func (h *TwoPartyHandler) canAccept(msg *Message) bool {
 func (h *TwoPartyHandler) Accept(msg *Message) {
 	h.mtx.Lock()
 	defer h.mtx.Unlock()
+	// a malformed message must never crash the caller: a panic while it is processed ends the session.
+	defer h.abortOnPanic()
 
 	if !h.canAccept(msg) || h.err != nil || h.result != nil {
 		return
